@@ -8,6 +8,26 @@ CLAIMED = {
    text="Generated-input search: 40k (quick) / 1M (thorough) messages built by construction over all 38 attribute kinds, boundary lengths and 7 legal tails are encoded by the library with three paddings/buffer slacks and decoded again; method, class, id, every attribute value and the three sizes are compared. Held means no counterexample in the explored set; failures shrink to a minimal message saved as a replay file.",
    note="Trusted: proptest, the harness's own reference codec/crypto (self-tested against RFC vectors at every start), precis-profiles for the OpaqueString alphabet self-test. Constructors arbitrate what is within documented limits. One feature configuration.",
    ref="3/C01"),
+ "C02": dict(
+   technique="differential testing against an independent reference codec (proptest + exhaustive enumeration of small domains) with metamorphic noise on ignorable bits",
+   text="Every generated message's library encoding is compared byte for byte with a reference encoder written from the RFCs, and reference encodings whose padding/reserved bits are set (all ones, random, each bit alone) must decode to the same values, with and without validation. The (method,class) interleaving, all 16-bit type fields, all error codes, all ICMP type/code pairs and every transaction-id bit in the XOR are enumerated completely; the RFC 5769 / RFC 8489 B.1 vectors are fixed seeds checked under the reference crypto.",
+   note="Trusted: the harness's reference codec/crypto (RFC interpretations listed in the evidence assumptions), proptest. Held = no disagreement on the explored set.",
+   ref="3/C02"),
+ "C09": dict(
+   technique="exhaustive enumeration of all 87,381 attribute-kind sequences x correctness masks x 16 decoder option combinations against the ordering rule as stated",
+   text="All sequences of up to 8 attributes over {ordinary, MI, SHA256, FINGERPRINT} are rendered by the reference encoder with all-correct, every single-incorrect and one pseudo-random MAC/CRC mask and decoded under every option combination; the decoded list must be exactly the admitted subsequence, validation must fail exactly when an admitted verifiable attribute is wrong (or lacks a key), and the agent's own iterator must admit the same positions. The sequence space named by the property is covered completely (exhaustive: true).",
+   note="Exhaustive only over the abstract kind sequences; concrete attribute values are fixed representatives. Trusted: reference encoder/crypto, the verif-hooks accessor.",
+   ref="3/C09"),
+ "C14": dict(
+   technique="property-based testing with exhaustive buffer-length sweeps per generated message plus enumerated size-targeted messages around 65,535 attribute bytes",
+   text="Each generated message is encoded into every buffer length 0..=needed+8 (sampled above 600 bytes) with three prefills and compared with the reference bytes; success iff the buffer suffices, returned size exact, tail untouched, no panic. Messages with 65,500..65,600, ~70,000 and ~131,080 attribute bytes in several shapes must encode correctly when they fit the 16-bit length and return an error otherwise. The harness is built with overflow checks so wrap-arounds panic, and the size/byte oracle also catches silent wraps.",
+   note="Trusted: reference encoder. Nothing is asserted about partial writes after an error.",
+   ref="3/C14"),
+ "C18": dict(
+   technique="metamorphic property-based testing: the same generated/mutated input decoded under all 16 option combinations, results compared pairwise per option axis",
+   text="Generated messages with unknown and mis-ordered verifiable attributes, unmutated or with 1-3 structure-aware mutations, are decoded under every option combination and the context-less decoder; validation-success implies identical unvalidated result, unknown-data only adds exactly the raw wire value, the unordered result is every wire attribute in order with the default result its admitted subsequence, no-context equals default context, key irrelevant without validation.",
+   note="Library messages are compared through Debug renderings; raw values come from the harness's own TLV walk.",
+   ref="3/C18"),
 }
 WIP = "check not yet built in this round (work in progress, see DESIGN.md section 3)"
 ALL = ["C%02d" % i for i in range(1, 20)]
